@@ -331,6 +331,9 @@ func (s *server) OnWebTransportSession(ctx *types.HttpContext, wt *webtransport.
 	} else {
 		server_log.Debug("upgrading existing transport")
 
+		// WebTransport exists in revision 4 only and its URL carries no query:
+		// without this the candidate would speak the revision-3 packet format
+		ctx.Query().Set("EIO", "4")
 		transport, err := s.CreateTransport(ctx.Request().Proto, ctx)
 		if err != nil {
 			server_log.Debug("upgrading not existing transport")
